@@ -336,13 +336,13 @@ def obligations(tier):
                               code=['propka/atom.py:Atom.set_properties (numb)', 'propka/run.py:single (whole pipeline: bonding, ligand typing, ring search, groups, pKa)',
                                     'propka/conformation_container.py:ConformationContainer.sort_atoms'],
                               bounds='micro-structure %s with its serial numbers replaced by 6 numbering schemes plus a symbolic offset in [0, 90000]' % name,
-                              claim_doc='bonds, groups (incl. ligand group types), pKa values and determinants identical to the run on the file as numbered', max_paths=5000))
+                              claim_doc='bonds, groups (incl. ligand group types), pKa values and determinants identical to the run on the file as numbered', max_paths=5000, split_input=('numbering', 6)))
     for name, res in ([('pair_GLU_ARG_TYR', 57)] if tier == 'quick' else [('pair_GLU_ARG_TYR', 57), ('pair_GLU_ARG_TYR', 35), ('pep8', 29), ('pair_ASP_ARG', 87)]):
         obs.append(Obligation('O3-serials-never-influence[%s,MODEL2 lacks side chain %d]' % (name, res), mk_serials_irrelevant(name, truncated_model=res),
                               code=['propka/atom.py:Atom.set_properties (numb)', 'propka/conformation_container.py:ConformationContainer.top_up_from_atoms', 'propka/molecular_container.py:MolecularContainer.top_up_conformations',
                                     'propka/run.py:single (whole pipeline)'],
                               bounds='two-MODEL file from %s, MODEL 2 without the side chain of residue %d; 8 numbering schemes (continued, restarting per MODEL, ...) plus a symbolic offset in [0, 90000]' % (name, res),
-                              claim_doc='atoms after topping up, bonds, groups, pKa values and determinants identical in every conformation and in the average', max_paths=5000))
+                              claim_doc='atoms after topping up, bonds, groups, pKa values and determinants identical in every conformation and in the average', max_paths=5000, split_input=('numbering', 8)))
     maxlen = 3 if tier == 'quick' else 5
     for L in range(0, maxlen + 1):
         obs.append(Obligation('O2-reject-len%d' % L, mk_reject(L), code=code,
